@@ -106,6 +106,8 @@ def dist_values(spec):
     if k == "uniform":
         return np.linspace(spec["low"], spec["high"], spec["n"], endpoint=spec["endpoint"])
     s, c, L = spec["std"], spec["center"], spec["limit"]
+    if spec["n"] == 1:
+        return np.array([float(c)])  # a single-sample Gaussian is represented by its centre
     return np.linspace(-s * L + c, s * L + c, spec["n"])
 
 
